@@ -495,3 +495,130 @@ func recordedUnconditionally(v ssa.Value) (bool, string) {
 	}
 	return true, ""
 }
+
+// checkDeferOverwrite: a deferred function literal that assigns the enclosing function's named error result must not wipe out an
+// error the body has already put there. Accepted: the assignment is made only where the result is nil (`if err == nil { err = cerr }`),
+// or the new value is built from the old one (errors.Join(err, cerr), fmt.Errorf("...%w", err)). An unconditional `err = f.Close()`
+// turns a failed write into success whenever closing succeeds.
+func checkDeferOverwrite(c *Ctx, rule string, funcs []*ssa.Function) {
+	n := 0
+	for _, f := range funcs {
+		for _, b := range f.Blocks {
+			for _, in := range b.Instrs {
+				d, ok := in.(*ssa.Defer)
+				if !ok {
+					continue
+				}
+				mc, ok := d.Call.Value.(*ssa.MakeClosure)
+				if !ok {
+					continue
+				}
+				cl, _ := mc.Fn.(*ssa.Function)
+				if cl == nil {
+					continue
+				}
+				for bi, bind := range mc.Bindings {
+					al, ok := bind.(*ssa.Alloc)
+					if !ok || !isErr(al.Type().(*types.Pointer).Elem()) || bi >= len(cl.FreeVars) {
+						continue
+					}
+					// the cell of a named result: it is what the function's returns load after running the defers
+					isResult := false
+					for _, fb := range f.Blocks {
+						if ret, ok := fb.Instrs[len(fb.Instrs)-1].(*ssa.Return); ok {
+							for _, rv := range ret.Results {
+								if u, ok := rv.(*ssa.UnOp); ok && u.Op == token.MUL && u.X == ssa.Value(al) {
+									isResult = true
+								}
+							}
+						}
+					}
+					if !isResult {
+						continue
+					}
+					fv := cl.FreeVars[bi]
+					for _, cb := range cl.Blocks {
+						for _, cin := range cb.Instrs {
+							st, ok := cin.(*ssa.Store)
+							if !ok || st.Addr != ssa.Value(fv) {
+								continue
+							}
+							n++
+							key := shortFn(f) + ": a deferred assignment to the error result keeps an error that is already there"
+							guarded := false
+							for _, cd := range controlConds(cb) {
+								bo, ok := cd.v.(*ssa.BinOp)
+								if !ok || (bo.Op != token.EQL && bo.Op != token.NEQ) {
+									continue
+								}
+								isOld := func(v ssa.Value) bool {
+									u, ok := v.(*ssa.UnOp)
+									return ok && u.Op == token.MUL && u.X == ssa.Value(fv)
+								}
+								if (isOld(bo.X) && isNilConst(bo.Y)) || (isOld(bo.Y) && isNilConst(bo.X)) {
+									if (bo.Op == token.EQL) == cd.pol {
+										guarded = true
+									}
+								}
+							}
+							// under `recover() != nil` the body did not get to return anything: there is no earlier error to keep
+							for _, cd := range controlConds(cb) {
+								bo, ok := cd.v.(*ssa.BinOp)
+								if !ok || (bo.Op != token.EQL && bo.Op != token.NEQ) || (bo.Op == token.NEQ) != cd.pol {
+									continue
+								}
+								for _, side := range []ssa.Value{bo.X, bo.Y} {
+									if call, ok := side.(*ssa.Call); ok {
+										if bi, ok := call.Call.Value.(*ssa.Builtin); ok && bi.Name() == "recover" {
+											guarded = true
+										}
+									}
+								}
+							}
+							// the new value is built from the old one
+							fromOld := false
+							seen := map[ssa.Value]bool{}
+							var walk func(v ssa.Value, depth int)
+							walk = func(v ssa.Value, depth int) {
+								if v == nil || seen[v] || depth > 8 {
+									return
+								}
+								seen[v] = true
+								if u, ok := v.(*ssa.UnOp); ok && u.Op == token.MUL && u.X == ssa.Value(fv) {
+									fromOld = true
+									return
+								}
+								if ins, ok := v.(ssa.Instruction); ok {
+									for _, op := range ins.Operands(nil) {
+										if *op != nil {
+											walk(*op, depth+1)
+										}
+									}
+								}
+								// a variadic argument list: the values stored into the backing array
+								if sl, ok := v.(*ssa.Slice); ok {
+									if arr, ok := sl.X.(*ssa.Alloc); ok && arr.Referrers() != nil {
+										for _, r := range *arr.Referrers() {
+											if ia, ok := r.(*ssa.IndexAddr); ok && ia.Referrers() != nil {
+												for _, rr := range *ia.Referrers() {
+													if s2, ok := rr.(*ssa.Store); ok {
+														walk(s2.Val, depth+1)
+													}
+												}
+											}
+										}
+									}
+								}
+							}
+							walk(st.Val, 0)
+							c.Check(rule, key, st.Pos(), guarded || fromOld,
+								"the deferred function assigns the error result whether or not the body already failed: the error of the body (a failed write) is replaced by the outcome of the deferred call, so a run whose output was cut short reports success when that call succeeds",
+								"a write error while a generated file is rendered (disk full, quota, file size limit): exit status 0 and a truncated file")
+						}
+					}
+				}
+			}
+		}
+	}
+	c.Extra("deferred_result_assignments", n)
+}
